@@ -566,6 +566,9 @@ impl TransportService {
     /// Call fails if there is no connection open to `peer` or the channel towards
     /// the connection is clogged.
     pub fn open_substream(&mut self, peer: PeerId) -> Result<SubstreamId, SubstreamError> {
+        #[cfg(feature = "verif")]
+        verif_open_log::record(peer);
+
         // always prefer the primary connection
         let connection = &mut self
             .connections
@@ -670,6 +673,36 @@ pub mod verif_dial_log {
 
     /// The `dial` calls made on this thread since the last call: peer and `None` for `Ok(())`.
     pub fn take() -> Vec<(PeerId, Option<ImmediateDialError>)> {
+        LOG.with(|log| std::mem::take(&mut *log.borrow_mut()))
+    }
+}
+
+/// Verification hook: per-thread log of the peers [`TransportService::open_substream`] was called for,
+/// in call order, whatever the result (switched on by the harness). Adds code only.
+#[cfg(feature = "verif")]
+pub mod verif_open_log {
+    use crate::PeerId;
+    use std::cell::{Cell, RefCell};
+
+    thread_local! {
+        static ENABLED: Cell<bool> = const { Cell::new(false) };
+        static LOG: RefCell<Vec<PeerId>> = const { RefCell::new(Vec::new()) };
+    }
+
+    /// Switch the log on or off for this thread.
+    pub fn enable(on: bool) {
+        ENABLED.with(|flag| flag.set(on));
+        LOG.with(|log| log.borrow_mut().clear());
+    }
+
+    pub(super) fn record(peer: PeerId) {
+        if ENABLED.with(|flag| flag.get()) {
+            LOG.with(|log| log.borrow_mut().push(peer));
+        }
+    }
+
+    /// The peers `open_substream` was called for on this thread since the last call.
+    pub fn take() -> Vec<PeerId> {
         LOG.with(|log| std::mem::take(&mut *log.borrow_mut()))
     }
 }
